@@ -67,7 +67,7 @@ impl Prop for C15 {
         gen::enumerate_histories(1).into_iter().map(|h| DerivCase { src: AnyGraph::Hist(h), subset: vec![1, 0], w: 4 }).collect()
     }
     fn strategy(&self, tier: Tier) -> BoxedStrategy<DerivCase> {
-        (any_graph_strategy(tier.pick(20, 40)), vec(any::<u8>(), 0..7), prop_oneof![1 => 0u8..6, 1 => any::<u8>()]).prop_map(|(src, subset, w)| DerivCase { src, subset, w }).boxed()
+        (any_graph_strategy(tier.pick(20, 40)), prop_oneof![6 => vec(any::<u8>(), 0..7), 1 => vec(any::<u8>(), 7..60)], prop_oneof![1 => 0u8..6, 1 => any::<u8>()]).prop_map(|(src, subset, w)| DerivCase { src, subset, w }).boxed()
     }
     fn random_cases(&self, tier: Tier) -> u32 {
         tier.pick(100_000, 1_000_000)
@@ -171,6 +171,9 @@ impl Prop for C15 {
         out.class(format!("kind_{}", m.spec.label()));
         if s.iter().any(|x| x == ABSENT) {
             out.class("subset_with_absent_name");
+        }
+        if s.iter().filter(|x| m.has(x)).collect::<std::collections::BTreeSet<_>>().len() > 16 {
+            out.class("subset_selects_more_than_16_nodes");
         }
         out.nontrivial = nontrivial;
         out
